@@ -13,11 +13,11 @@ func init() {
 		ID: "C05", Level: "exploration", PanicClause: "C05.panic",
 		Cases: func(tier string) int {
 			if tier == "quick" {
-				return 3840
+				return 3888
 			}
 			return 192000
 		},
-		Rule: "cases sweep the full matrix 8 key types x 5 value types x {v1.1.5binary, v1marshaler, v1marshaler+registered-types codec} x cache {none, big, tiny} x bf {2,4,16} (case index mod 1080 selects the cell) with a seeded history per case; at every reload point the root record goes through JSON and back (2/3 of reloads), is loaded, and Size/Height/BranchFactor/NodeFormat and the full ordered dump (dynamic key type, key order, deep value equality) are compared with the tree that was persisted; the history then continues on the reloaded tree (inserts, deletes to shrink thresholds, further persists), >= 2 reload cycles; non-trivial = height >= 1 AND >= 2 reload cycles; distinct by (config, contents at the last reload)",
+		Rule: "cases sweep the full matrix 8 key types x 6 value types (incl. nil values of set-like trees) x {v1.1.5binary, v1marshaler, v1marshaler+registered-types codec} x cache {none, big, tiny} x bf {2,4,16} (case index mod 1296 selects the cell) with a seeded history per case; at every reload point the root record goes through JSON and back (2/3 of reloads), is loaded, and Size/Height/BranchFactor/NodeFormat and the full ordered dump (dynamic key type, key order, deep value equality) are compared with the tree that was persisted; the history then continues on the reloaded tree (inserts, deletes to shrink thresholds, further persists), >= 2 reload cycles; non-trivial = height >= 1 AND >= 2 reload cycles; distinct by (config, contents at the last reload)",
 		Assumptions: []string{
 			"excluded because the encoding itself does not round-trip (the property's own proviso): ValuesLike=nil, default JSON with UnmarshalerUsesRegisteredTypes, v1.1.5binary without KeysLike, NaN, nil-vs-empty slices",
 		},
@@ -30,8 +30,8 @@ func matrixCfg(idx int) kinds.Cfg {
 	c := kinds.Cfg{Codec: "json"}
 	c.KK = kinds.AllKeyKinds[idx%8]
 	idx /= 8
-	c.VK = kinds.AllValKinds[idx%5]
-	idx /= 5
+	c.VK = kinds.AllValKinds[idx%6]
+	idx /= 6
 	switch idx % 3 {
 	case 0:
 		c.Format = ref.Binary
